@@ -188,11 +188,89 @@ def _tier_selection(ctx):
     ctx.ob("R36.4", "compute_allowed_dispersive_coefficients:tier-guard", len(guards) >= 1, "keeping a single coefficient column is refused for a material whose dispersion is not isotropic", len(guards), ">= 1 raising guard")
 
 
+def _painting_siblings(ctx):
+    """The four coefficient arrays of a pole are painted by the same operation: within one placement loop the
+    statements that update dispersive_c1 .. c4 are identical up to the digit (reused temporaries such as `diff`
+    inlined).  A coefficient that is accumulated where its siblings are overwritten leaves c1 and c2 from
+    different materials in one cell — a recurrence nobody validated."""
+    import ast
+    import re
+
+    ix = ctx.index
+    n_groups = 0
+    bad = []
+    for fname in ("_init_arrays", "apply_params"):
+        fi = ix.function(f"fdtdx.fdtd.initialization.{fname}")
+        ctx.unit(fi.where())
+        groups = []  # statement lists; an `if` about the optional c4 array does not open a new group
+
+        def collect(body, cur):
+            for st in body:
+                if isinstance(st, ast.If):
+                    if re.search(r"c4", ast.unparse(st.test)):
+                        collect(st.body, cur)
+                        collect(st.orelse, cur)
+                    else:
+                        cur.append(st)
+                        for branch in (st.body, st.orelse):
+                            g = []
+                            groups.append(g)
+                            collect(branch, g)
+                elif isinstance(st, (ast.For, ast.While, ast.With)):
+                    g = []
+                    groups.append(g)
+                    collect(st.body, g)
+                else:
+                    cur.append(st)
+
+        top = []
+        groups.append(top)
+        collect(fi.node.body, top)
+        for stmts in groups:
+            counts = {}
+            for st in stmts:
+                if isinstance(st, ast.Assign) and len(st.targets) == 1 and isinstance(st.targets[0], ast.Name):
+                    counts[st.targets[0].id] = counts.get(st.targets[0].id, 0) + 1
+            temps = {nm for nm, c in counts.items() if c > 1 and not re.fullmatch(r"dispersive_c[1-4]", nm)}
+            last = {}
+            forms = {}
+            for st in stmts:
+                if not (isinstance(st, ast.Assign) and len(st.targets) == 1 and isinstance(st.targets[0], ast.Name)):
+                    continue
+                tgt = st.targets[0].id
+                if tgt in temps:
+                    last[tgt] = st.value
+                    continue
+                self_update = isinstance(st.value, ast.Call) and st.value.args and isinstance(st.value.args[0], ast.Name) and st.value.args[0].id == tgt
+                if re.fullmatch(r"dispersive_c[1-4]", tgt) and self_update:  # an update of the array (allocations differ legitimately in shape)
+                    class Inl(ast.NodeTransformer):
+                        def visit_Name(self, node):
+                            if node.id in last and isinstance(node.ctx, ast.Load):
+                                return last[node.id]
+                            return node
+
+                    import copy
+
+                    expr = ast.unparse(Inl().visit(copy.deepcopy(st.value)))
+                    norm = re.sub(r"(?<![A-Za-z0-9])c[1-4](?![0-9])|_c[1-4](?![0-9])", lambda m_: m_.group(0)[:-1] + "K", expr)
+                    norm = re.sub(r"coupling_slice_shape|slice_shape", "SHAPE", norm)
+                    forms.setdefault(norm, []).append((tgt, st.lineno))
+            if sum(len(v) for v in forms.values()) >= 3:
+                n_groups += 1
+                if len(forms) != 1:
+                    major = max(forms.values(), key=len)
+                    for norm, sites in forms.items():
+                        if sites is not major:
+                            bad.append((fname, [t for t, _ in sites], norm[:160]))
+    ctx.ob("R36.5", "fdtdx.fdtd.initialization:pole-coefficient painting", not bad and n_groups >= 2, "in every placement loop the statements that paint dispersive_c1 .. c4 have one and the same form up to the coefficient's digit (temporaries inlined): all four are overwritten inside the object's mask, none is accumulated", bad[:3], f"{n_groups} groups, one form each")
+
+
 def run(ctx):
     _recurrence(ctx)
     _zero_coefficients(ctx)
     _acceptance(ctx)
     _tier_selection(ctx)
+    _painting_siblings(ctx)
     ctx.require_count("C36", len(ctx.obligations), 33)
     ctx.trusted_base += [
         "Levi-Civita oracle of the discrete curl (C01)",
